@@ -33,6 +33,19 @@ package certexchange
 //@   at chanselect 1
 //@     before[delivers_only_in_sequence] request.FirstInstance + i <= 18446744073709551615 ==> cert.GPBFTInstance == request.FirstInstance + i
 //@     before[delivers_at_most_limit] i < request.Limit
+//@   at UnmarshalCBOR 1
+//@     before[each_certificate_is_read_under_a_fresh_size_limit] arg(0) == cert && br.N == maxPowerTableSize
+
+// The request as given goes out; the response header is read under a size limit (100 bytes, or the power-table limit
+// when a power table was asked for); the receiving goroutine works on a copy of the request.
+//@ func (*Client).Request
+//@   property C16
+//@   modifies auto
+//@   maypanic
+//@   at MarshalCBOR 1
+//@     before[the_request_is_sent_as_given] arg(0) == req
+//@   at UnmarshalCBOR 1
+//@     before[the_header_is_read_under_a_size_limit] br.N == ite(req.IncludePowerTable, maxPowerTableSize, 100) && arg(0) == &resp && dominatedBy(CloseWrite, 1)
 
 // C14 decoder sweep: no index, slice or allocation-size panic for any input the CBOR reader can produce.
 //@ func (*Request).UnmarshalCBOR
